@@ -1162,7 +1162,7 @@ PROPS["C09"] = {
             "truncation at every kind of position, trailing newline stripped), (c) token soup over an alphabet of all keywords incl. program/init/memory/def/call, C X Z, literals incl. 0x, 09, 2^63, operators, "
             "$, blank characters, 2-, 3-, 4-byte characters and an Arabic-Indic digit, after various headers; thorough: exhaustive token strings up to length 3 over 24 symbols. The verdict, the error kind "
             "with its token kinds and every error SPAN are compared with the model; each error is also rendered with miette's graphical handler under catch_unwind; distinct = hash of the projection",
-    "proved": "parse never panics and never runs out of fuel (terminates) for every string; every error span lies within the text with start <= end; token spans are offsets of character boundaries; binding never panics",
+    "proved": "parse never panics and never runs out of fuel (terminates) for every string; every error span lies within the text with start <= end; token spans are offsets of character boundaries; binding never panics; every token's lexeme is matched by the rule of its kind in the table computed from the source's regexes, keywords and punctuation (LexSpec)",
     "validated_only": "that the logos-generated lexers equal the hand-written maximal-munch scanner (token streams compared through the verif-hooks lexer functions in C20's check and implicitly here through spans); "
                       "that miette renders every error (exercised, not modelled); native stack exhaustion on deeply nested input is out of scope",
     "assumptions": ["Lexer.v / Parser.v model src/lexer, src/parser (checked by this run: verdict, kind and spans of every case)"],
@@ -1504,7 +1504,9 @@ PROPS["C20"] = {
             "(0x1F next to identifiers, << vs < <, != vs ! =, keywords as prefixes of identifiers, CR before LF, non-ASCII digits in identifiers) lexed by the crate's REAL logos lexers through the verif-hooks "
             "functions and by the model scanner, token by token with spans",
     "proved": "token sequence (kinds and texts) invariant under: any change of a non-empty blank run, insertion of blank space at a separator / before a comment / at text end, appending a comment to a line; "
-              "the value of a literal depends only on its digits (radix spelling theorems); (with proofs/ParserLayoutProof.v when present in props/C20.v) the parser's result depends on kinds and texts only",
+              "the value of a literal depends only on its digits (radix spelling theorems); (with proofs/ParserLayoutProof.v when present in props/C20.v) the parser's result depends on kinds and texts only; "
+              "the scanner is the longest-match lexer of the rule table COMPUTED from the source's regexes (LexSpec.parse_re), keywords and punctuation: every lexeme is matched by its kind's rule, no rule matches a longer prefix, "
+              "Error only where nothing matches, keyword over Ident except for the one documented quirk; header scanner likewise (rules disjoint, total)",
     "validated_only": "that logos' generated automata compute the same tokens as the hand-written scanner (compared token by token on the stress texts and on every program of the run); "
                       "the effect of inserted blank lines on the parser (only `line` shifts) where not yet proved",
     "assumptions": ["Lexer.v models the logos lexers (checked token by token by this run)"],
@@ -1681,7 +1683,7 @@ PROPS["C15"] = {
             "over-represented; a second dynamic run with a different driver (other values, echo flipped); try_iter_static; 2-4 iterators over ONE TestCase advanced by a seeded schedule, each with its own driver. "
             "Oracles: reparse equal; every interleaved iterator yields the rows of the solo run; static succeeds iff READS is empty; static rows = (inputs, expected, line) of both dynamic runs. The model is compared on the run and static cases",
     "proved": "parse is independent of HashMap iteration order (any three permutations before the sort give the same result; recorded span starts strictly increasing); next() depends on the driver only through the answer to its one call, n calls only "
-              "through the answers along the run; try_iter_static Ok iff no reads, its expect/index/unreachable are dead; static iteration previews every dynamic run item by item when no identifier falls through to a device output",
+              "through the answers along the run; try_iter_static Ok iff no reads, its expect/index/unreachable are dead; static iteration previews every dynamic run item by item when no identifier falls through to a device output - also with declared (virtual) signals (DeterminismProofE; the literal statement with the narrower item relation is refuted by declare v = 1/0 and a failing device) and for a caller that continues after error items (through evaluation errors always, through device failures when no declared signal draws random; that restriction is shown necessary)",
     "validated_only": "that the code shares no state between iterators (ownership + tools/state_audit.py + interleaved runs: 'schedules' is partial by construction); std HashMap randomisation is exercised by 16 parses per text, not modelled",
     "assumptions": ["Parser.v / Iter.v / Static.v model the crate (checked by this run)", "iterators own their state (audited syntactically)"],
     "trusted_base": [],
